@@ -104,4 +104,101 @@ theorem oks_perm {rs rs' : List (Except LoadErr IndexFile)} (h : rs.Perm rs') : 
   | swap a b l => cases a <;> cases b <;> simp only [oks] <;> first | exact .refl _ | exact .swap ..
   | trans _ _ ih1 ih2 => exact ih1.trans ih2
 
+/-! ### `supersedes` is not read by loading -/
+
+/-- `R` holds position by position between two lists of equal length -/
+inductive Pointwise {α : Type} (R : α → α → Prop) : List α → List α → Prop
+  | nil : Pointwise R [] []
+  | cons {a b : α} {l l' : List α} : R a b → Pointwise R l l' → Pointwise R (a :: l) (b :: l')
+
+/-- two index files that list the same packs (unmarked and marked) — they may differ in their `supersedes` lists only -/
+def SameListing (a b : IndexFile) : Prop := a.packs = b.packs ∧ a.packsToDelete = b.packsToDelete
+
+/-- two fetch results that differ at most in the `supersedes` list of the fetched file -/
+def SameResult : Except LoadErr IndexFile → Except LoadErr IndexFile → Prop
+  | .error e, .error e' => e = e'
+  | .ok a, .ok b => SameListing a b
+  | _, _ => False
+
+theorem SameListing.symm {a b : IndexFile} (h : SameListing a b) : SameListing b a := ⟨h.1.symm, h.2.symm⟩
+
+theorem SameResult.symm {a b : Except LoadErr IndexFile} (h : SameResult a b) : SameResult b a := by
+  cases a <;> cases b <;> simp only [SameResult] at h ⊢
+  · exact h.symm
+  · exact h.symm
+
+theorem unmarked_congr {files files' : List IndexFile} (h : Pointwise SameListing files files') :
+    unmarked files = unmarked files' := by
+  induction h with
+  | nil => rfl
+  | cons hab _ ih => simp only [unmarked, List.flatMap_cons] at ih ⊢; rw [hab.1, ih]
+
+/-- `load` reads nothing of an index file but `packs`. -/
+theorem load_eq_extend (m : IndexType) (files : List IndexFile) :
+    load m files = ((Collector.new m).extend (unmarked files)).intoIndex := by
+  unfold load; rw [collect_eq_extend]
+
+theorem load_congr (m : IndexType) {files files' : List IndexFile} (h : Pointwise SameListing files files') :
+    load m files = load m files' := by
+  rw [load_eq_extend, load_eq_extend, unmarked_congr h]
+
+theorem firstError_congr {rs rs' : List (Except LoadErr IndexFile)} (h : Pointwise SameResult rs rs') :
+    firstError rs = firstError rs' := by
+  induction h with
+  | nil => rfl
+  | @cons a b _ _ hab _ ih =>
+    cases a <;> cases b <;> simp only [SameResult] at hab
+    · simp only [firstError, hab]
+    · simpa only [firstError] using ih
+
+theorem oks_congr {rs rs' : List (Except LoadErr IndexFile)} (h : Pointwise SameResult rs rs') :
+    Pointwise SameListing (oks rs) (oks rs') := by
+  induction h with
+  | nil => exact .nil
+  | @cons a b _ _ hab _ ih =>
+    cases a <;> cases b <;> simp only [SameResult] at hab
+    · simpa only [oks] using ih
+    · simp only [oks]; exact .cons hab ih
+
+theorem loadResults_congr (m : IndexType) {rs rs' : List (Except LoadErr IndexFile)}
+    (h : Pointwise SameResult rs rs') : loadResults m rs = loadResults m rs' := by
+  rw [loadResults_eq, loadResults_eq, firstError_congr h, load_congr m (oks_congr h)]
+
+/-- a relation that holds position-wise between two listings also holds position-wise between any reordering of the
+first and a suitable reordering of the second -/
+theorem forall₂_of_perm {α : Type} {R : α → α → Prop} {s l : List α} (hp : s.Perm l) :
+    ∀ {l' : List α}, Pointwise R l l' → ∃ s', s'.Perm l' ∧ Pointwise R s s' := by
+  induction hp with
+  | nil => intro l' h; exact ⟨l', .refl _, h⟩
+  | cons x _ ih =>
+    intro l' h
+    cases h with
+    | cons hxy ht =>
+      obtain ⟨s', hp', hf'⟩ := ih ht
+      exact ⟨_ :: s', hp'.cons _, .cons hxy hf'⟩
+  | swap x y l =>
+    intro l' h
+    cases h with
+    | cons hy ht =>
+      cases ht with
+      | cons hx ht => exact ⟨_ :: _ :: _, .swap _ _ _, .cons hx (.cons hy ht)⟩
+  | trans _ _ ih1 ih2 =>
+    intro l' h
+    obtain ⟨m', hpm, hfm⟩ := ih2 h
+    obtain ⟨s', hps, hfs⟩ := ih1 hfm
+    exact ⟨s', hps.trans hpm, hfs⟩
+
+theorem forall₂_map_getFile {s s' : List RepoFile}
+    (h : Pointwise (fun a b => SameResult (getFile a) (getFile b)) s s') :
+    Pointwise SameResult (s.map getFile) (s'.map getFile) := by
+  induction h with
+  | nil => exact .nil
+  | cons hab _ ih => exact .cons hab ih
+
+theorem forall₂_symm {α : Type} {R : α → α → Prop} (hs : ∀ a b, R a b → R b a) {l l' : List α}
+    (h : Pointwise R l l') : Pointwise R l' l := by
+  induction h with
+  | nil => exact .nil
+  | cons hab _ ih => exact .cons (hs _ _ hab) ih
+
 end Rustic.IndexLoad
